@@ -17,7 +17,8 @@ META = dict(
     evaluations_counter="cases",
     min={"backward_passes": 400, "grad_checks:input": 400, "grad_checks:weight": 200, "grad_checks:bias": 100,
          "frozen_checks": 80, "weight_updates": 150, "noncontiguous_upstream": 60, "quantized_inputs": 80,
-         "ste_checks": 300, "ste_checks:qbits": 80, "ste_checks:activation": 60, "inputs_without_grad": 60, "eval_mode_modules": 100},
+         "ste_checks": 300, "ste_checks:qbits": 80, "ste_checks:activation": 60, "inputs_without_grad": 60, "eval_mode_modules": 100,
+         "held_optimizer_steps": 100, "reloads_between_steps": 30},
     anchors=["tensor/qtensor_func.py:QTensorLinear.forward", "tensor/qtensor_func.py:QTensorLinear.backward",
              "tensor/quantizers/symmetric.py:SymmetricQuantizer.backward", "nn/qmodule.py:QModuleMixin.qweight",
              "tensor/quantizers/affine.py:AffineQuantizer.backward", "tensor/qbits/qbits.py:QBitsDequantizer.backward",
@@ -231,10 +232,40 @@ def run(ctx):
                     # eval mode is not no_grad: fine-tuning with dropout / batch-norm switched off, sensitivity analyses
                     model.eval()
                     ctx.count("eval_mode_modules")
+                # a training loop creates its optimizer once, on the parameters of the quantized model, and keeps it: anything
+                # that happens between two steps (resuming from a checkpoint, moves that move nothing, mode switches) must
+                # leave the optimizer training the weights the module's forward quantizes
+                held = torch.optim.SGD(model.parameters(), lr=1.0) if (not frozen and n_upd and r.random() < 0.6) else None
             except Exception as e:
                 ctx.violation(dict(sig0, kind="setup_raises", exc=type(e).__name__), dict(desc=desc, msg=str(e)[:200]))
                 continue
             for step in range(n_upd + 1):
+                if held is not None and r.random() < 0.5:
+                    ev = ["reload_own_state", "reload_own_state_from_disk", "to_same_dtype", "train_toggle", "requires_grad_"][int(r.integers(5))]
+                    try:
+                        if ev.startswith("reload_own_state"):
+                            import copy
+                            import io
+
+                            ckpt = copy.deepcopy(model.state_dict())
+                            if ev.endswith("disk"):
+                                bio = io.BytesIO()
+                                torch.save(ckpt, bio)
+                                bio.seek(0)
+                                ckpt = torch.load(bio, weights_only=False)
+                            model.load_state_dict(ckpt)
+                            ctx.count("reloads_between_steps")
+                        elif ev == "to_same_dtype":
+                            model.to(wd).to("cpu")
+                        elif ev == "train_toggle":
+                            model.train(not model.training)
+                        else:
+                            model.requires_grad_(True)
+                        ctx.see("events_between_steps", ev)
+                    except Exception as e:
+                        ctx.violation(dict(sig0, kind="event_between_steps_raises", event=ev, exc=type(e).__name__),
+                                      dict(desc=desc, step=step, msg=str(e)[:300]))
+                        break
                 x = torch.from_numpy(r.standard_normal(xshape)).to(wd)
                 lay = r.random()
                 if lay < 0.2 and x.ndim >= 3:  # what a transpose upstream produces (same values, permuted strides)
@@ -339,7 +370,29 @@ def run(ctx):
                     mag = base_mag * float(r.uniform(2, 10))  # relative to the initial weights: updates must not blow up
                     delta = (torch.from_numpy(r.standard_normal(tuple(q.weight.shape))) * mag).to(wd)
                     style = ["no_grad_add_", "data_add_", "data_copy_", "sgd_step"][int(r.integers(4))]
-                    if style == "no_grad_add_":
+                    wg_real = q.weight.grad
+                    if held is not None and r.random() < 0.7 and wg_real is not None and bool(torch.isfinite(wg_real).all()) \
+                            and float(wg_real.abs().max()) > 0:
+                        style = "held_sgd_step"
+                    if style == "held_sgd_step":
+                        # zero_grad / forward / backward happened above on this very module: the step of the optimizer created
+                        # at the start must move the weight the next forward quantizes, by -lr * (the gradient just checked)
+                        lr = mag / float(wg_real.abs().max())
+                        for g_ in held.param_groups:
+                            g_["lr"] = lr
+                        if q.bias is not None:
+                            q.bias.grad = None
+                        w_before = q.weight.detach().to(F64).clone()
+                        g_before = wg_real.detach().to(F64).clone()
+                        held.step()
+                        ctx.count("held_optimizer_steps")
+                        w_exp = w_before - lr * g_before
+                        w_got = q.weight.detach().to(F64)
+                        bad = ~((w_got - w_exp).abs() <= 8 * num.eps(wd) * (w_before.abs() + (lr * g_before).abs()) + 1e-30)
+                        if bad.any():
+                            ctx.violation(dict(sig0, kind="optimizer_step_not_reflected_in_module_weight"),
+                                          dict(desc=desc, step=step, **oracles._first(bad, got=w_got, expected=w_exp)))
+                    elif style == "no_grad_add_":
                         with torch.no_grad():
                             q.weight.add_(delta)
                     elif style == "data_add_":  # the classic manual SGD step: p.data.add_(-lr * p.grad)
